@@ -86,6 +86,31 @@ void segmentCase(const JV& c, size_t k, std::string& out) {
 		e2.add("e", "delverts").raw("case", cj.done()).raw("I", u16json(idx)).add("allDeleted", all).add("checkParts", false).add("boneLimit", 1000000);
 		e2.raw("s", s1).raw("t", t1).add("reloaded", false);
 		out += e2.done() + "\n";
+		// and a second deletion on the same shape (histories matter: state kept between deletions)
+		if (!all && nt >= 2) {
+			std::vector<uint16_t> idx2 = {uint16_t(nt)};
+			ContentIds ids3;
+			std::string s2 = projectShape(nif, shape, ids3);
+			bool all2 = nif.DeleteVertsForShape(shape, idx2);
+			std::string t2 = projectShape(nif, shape, ids3);
+			JObj e3;
+			JObj cj3;
+			cj3.add("case", (long long) k).add("ver", "FO4").add("after", "SetShapeSegments+DeleteVerts");
+			e3.add("e", "delverts").raw("case", cj3.done()).raw("I", u16json(idx2)).add("allDeleted", all2).add("checkParts", false).add("boneLimit", 1000000);
+			e3.raw("s", s2).raw("t", t2);
+			bool rl = false;
+			if (!all2) {
+				NifFile copy(nif);
+				NifFile re;
+				if (loadFromString(re, saveToString(copy, true, true)) == 0)
+					if (auto rs = byName(re, "S")) {
+						e3.raw("r", projectShape(re, rs, ids3));
+						rl = true;
+					}
+			}
+			e3.add("reloaded", rl);
+			out += e3.done() + "\n";
+		}
 	}
 }
 
